@@ -145,7 +145,10 @@ Definition fs_del_ref (f : fstore) (n : N) : fstore * res :=
   else (mkFs l (f_packed f) (f_rest f), RErr EPackedRefsBad).
 
 (* PackRefs: all reference files (an empty one is an error) followed by the
-   packed lines of other names; the files are then removed *)
+   packed lines of other names; the files are then removed.  The files are
+   written in the order of the directory walk, modelled as name order (billy
+   memfs sorts; a real filesystem yields its own order, which is observable only
+   once a bad line exists) *)
 Definition pack_line (p : N * refval) : pline :=
   match snd p with RHash h => PGood (fst p) h | RSym _ => PBad end.
 
